@@ -179,7 +179,7 @@ def run(ctx):
     ctx.sample({"inputs": cases[-1][0], "kinds": cases[-1][1]})
     # model correspondence on the string-only runs
     write_coqproject()
-    rc, out = sh("timeout 1500 make -j%d Model/Batch.vo Gen/GenRules.vo Gen/GenConst.vo 2>&1" % NPROC, cwd=COQ)
+    rc, out = sh("timeout 1500 make -j%d Model/Batch.vo Model/Tables.vo Gen/GenRules.vo Gen/GenConst.vo 2>&1" % NPROC, cwd=COQ)
     if rc != 0:
         ctx.broken.append({"what": "batch model does not build", "detail": out[-1500:]})
         return
